@@ -91,6 +91,34 @@ def injection_walks(da, rng: random.Random, tier_: str) -> list[dict[str, Any]]:
                                   'errs': [{'code': c, 'pos': p} for c, p in errs], 'f': f, 'pos': pos,
                                   'status': r.status_code, 'url': url,
                                   'exc': da.exceptions[-1] if r.status_code >= 500 and da.exceptions else {}})
+    # ---- mixed walks: two media types inject the same 5xx code in one client session; the requests are
+    # interleaved, and each type has to fail the configured number of times on its own
+    mixes = [(('video', 503, 2), ('audio', 503, 2)), (('video', 503, 3), ('text', 503, 3)), (('audio', 504, 1), ('text', 504, 2)),
+             (('video', 500, 2), ('audio', 500, 3)), (('manifest', 503, 2), ('video', 503, 2))]
+    for mix in mixes:
+        for f in (1, 2, 3):
+            tid += 1
+            cl = da.client()
+            per = {}
+            for usage, code, pos in mix:
+                opt, tmpl = USAGE[usage]
+                per[usage] = (f'{opt}={code}={pos}&failures={f}', tmpl, code, pos)
+            order = []
+            for k in range(f + 2):
+                for usage, _, _ in mix:
+                    order.append(usage)
+            if tier_ == 'thorough':
+                order += [rng.choice([u for u, _, _ in mix]) for _ in range(6)]
+            for usage in order:
+                q, tmpl, code, pos = per[usage]
+                if usage == 'manifest':
+                    url = tmpl + '?' + q + f'&update={pos}&depth=20'
+                else:
+                    url = tmpl.format(pos=pos) + '?' + q
+                r = cl.get(url)
+                lines.append({'tid': tid, 'ev': 'req', 'usage': usage, 'client': 'a', 'errs': [{'code': code, 'pos': pos}], 'f': f, 'pos': pos,
+                              'status': r.status_code, 'url': url, 'mixed': 1,
+                              'exc': da.exceptions[-1] if r.status_code >= 500 and da.exceptions else {}})
     return lines
 
 
